@@ -67,7 +67,9 @@ theorem floor_identity (N m : Int) (hm : 0 < m) : N = (N / m) * m + N % m ∧ 0 
   omega
 
 theorem wide_mul : C02.WideMul := fun prof x1 x2 y h1 h2 hy => i256DivModFloor_spec prof x1 x2 y h1 h2 hy
-theorem wide_div : C04.WideDiv := fun prof x p y h1 hp hy => i128ShiftedDivModFloor_spec prof x p y h1 hp hy
+theorem wide_div : C04.WideDiv :=
+  ⟨fun prof x p y h1 hp hy => i128ShiftedDivModFloor_spec prof x p y h1 hp hy,
+   fun prof x p y h1 hp hy => i128ShiftedDivModFloor_spec_neg prof x p y h1 hp hy⟩
 
 /-! ### unconditional statements for the operations that use the wide paths -/
 
